@@ -327,6 +327,7 @@ func applyEdit(t *rapid.T, c *Case, harmlessOnly bool) {
 func jsonChoice(t *rapid.T, c *Case, pool []string, pKeep, pFix int) {
 	c.JSONDefaults = rapid.IntRange(0, 99).Draw(t, "jsondefaults") < pKeep
 	c.LateGlobals = rapid.IntRange(0, 3).Draw(t, "globals-set-after-loading") == 0
+	c.UntypedDefs = rapid.IntRange(0, 3).Draw(t, "security-definitions-without-type") == 0
 	c.EarlyContext = rapid.IntRange(0, 3).Draw(t, "context-created-before-media-types-and-authenticators") == 0
 	if c.JSONDefaults {
 		if rapid.IntRange(0, 99).Draw(t, "jsonfix") < pFix {
@@ -400,6 +401,9 @@ func Classify(c Case) (bool, []string) {
 	}
 	if c.LateGlobals && (len(c.Consumes) > 0 || len(c.Produces) > 0) {
 		labels["top-level consumes/produces set on the loaded document"] = true
+	}
+	if c.UntypedDefs && len(c.Defs) > 1 {
+		labels["security definitions declared without a type"] = true
 	}
 	if c.EarlyContext {
 		labels["Context created after the handlers and before the media types and authenticators were registered"] = true
